@@ -32,7 +32,8 @@ RULE = ("arrival sequences of 60-160 events over <= 40 distinct reliable packet 
         "sequences, thorough 16 x 3000. distinct_nontrivial = distinct event sequences (by kind and packet id) + distinct (kind, duplicate?, subscriber level) classes"
         ". Round-5 additions: PacketAck without blocks that only carries appended acks (what a proxy leaves after taking its own ids out); the client alternates between deferred and eager body parsing"
         ". Rounds 6-7: refused sends (unset variable, value that does not fit, unknown block) before good ones; half of the sequences get a second life (DisableSimulator, region registered again at the same address, peer ids start over); acknowledgements riding on retransmissions; undecodable client emissions are violations"
-        ". Round 9: subscribers through the notifier object register() hands out (taken before anybody subscribed); in half the sequences the first subscriber of each level fails on every message, with RuntimeError or asyncio.CancelledError")
+        ". Round 9: subscribers through the notifier object register() hands out (taken before anybody subscribed); in half the sequences the first subscriber of each level fails on every message, with RuntimeError or asyncio.CancelledError"
+        ". Round 10: the peer's StartPingCheck (OldestUnacked = next id / newest seen / 0) delivered on a running loop, duplicates of older packets afterwards; circuits numbering from just below 2**16, 2**24, 2**31")
 ASSUMPTIONS = [
     "at most 40 distinct reliable ids per ordinary run; separate long runs send more reliable packets than the de-duplication window holds and then retransmit packets that are still inside it (nothing is demanded for packets that left the window)",
     "the peer's messages are template messages allowed over UDP; the session manager is a stub (no HTTP)",
